@@ -14,9 +14,12 @@ OPS = ["shell", "exec_out", "streaming_shell", "root", "reboot", "list", "stat",
 
 
 # ------------------------------------------------------------------------------------------ generation
-def gen_step(rng, i, ops=OPS, big=False, maxdata=None, fails=False, dirs=False):
+def gen_step(rng, i, ops=OPS, big=False, maxdata=None, fails=False, dirs=False, hist=False):
     op = rng.choice(ops)
     sd = "%08x" % rng.getrandbits(32)
+    if hist and i > 0 and rng.random() < 0.12:
+        # the same device object connects again in the middle of the history: directly or after close(), possibly to a device announcing another maxdata
+        return {"op": "reconnect", "close": rng.random() < 0.4, "maxdata": rng.choice([None, None] + gen.MAXDATAS)}
     if dirs and op == "push" and rng.random() < 0.3:
         # a directory: regular files (some multi-WRTE), sometimes a sub-directory (never pushed) and, with fails, an entry that cannot be opened
         files = [["f%d" % k, rng.choice([0, 1, 300, 5000, 9000]), "file"] for k in range(rng.randint(1, 4))]
@@ -75,10 +78,10 @@ def gen_step(rng, i, ops=OPS, big=False, maxdata=None, fails=False, dirs=False):
     raise ValueError(op)
 
 
-def gen_scenario(rng, nsteps=None, ops=OPS, big=False, fails=False, long_cmds=False, dirs=False):
+def gen_scenario(rng, nsteps=None, ops=OPS, big=False, fails=False, long_cmds=False, dirs=False, hist=False):
     n = nsteps if nsteps is not None else rng.randint(1, 8)
     dims = gen.common_dims(rng)
-    return {"dims": dims, "steps": [gen_step(rng, i, ops, big, maxdata=dims["maxdata"] if long_cmds else None, fails=fails, dirs=dirs) for i in range(n)]}
+    return {"dims": dims, "steps": [gen_step(rng, i, ops, big, maxdata=dims["maxdata"] if long_cmds else None, fails=fails, dirs=dirs, hist=hist) for i in range(n)]}
 
 
 def blob(seed, size):
@@ -216,6 +219,19 @@ class Runner(object):
     prep_streaming_shell = prep_shell
     judge_exec_out = judge_shell
     judge_streaming_shell = judge_shell
+
+    # ---- connect again on the same object
+    def prep_reconnect(self, i, step):
+        if step.get("close"):
+            self.sess.call("close")
+        if step.get("maxdata"):
+            self.sim.maxdata = step["maxdata"]
+        return "connect", (), {}, None
+
+    def judge_reconnect(self, step, ctx, out):
+        if out.ok and out.value is True and self.sess.dev.available is True:
+            return []
+        return [self._v("C12", "reconnect-failed", "connect() in the middle of a history (%s) gave %s, available=%r" % ("after close()" if step.get("close") else "without close()", out.brief(100), self.sess.dev.available))]
 
     # ---- root / reboot
     def prep_root(self, i, step):
